@@ -1033,41 +1033,18 @@ Section ComboProofs.
   Proof. unfold exhaustive. apply combine_fst_snd. apply seq_length. Qed.
 End ComboProofs.
 
-(* ---------------------------------------------------------------- exhaustive(): zip(combo, set of functions) *)
-Section ExhaustivePairs.
-  Variables K C : Type.
-  Variable cat : K -> C.
-  Variable ceqb : C -> C -> bool.
-  Hypothesis ceqb_spec : forall a b, ceqb a b = true <-> a = b.
+(* ---------------------------------------------------------------- exhaustive(): zip(combo, list of functions) *)
+Lemma combine_self_aligned {K} (c : list K) : Forall (fun kf => fst kf = snd kf) (combine c c).
+Proof. induction c as [|k c IH]; cbn; constructor; auto. Qed.
 
-  Lemma all_same_cat_spec keys : all_same_cat cat ceqb keys = true -> forall x y, In x keys -> In y keys -> cat x = cat y.
-  Proof.
-    induction keys as [|a [|b tl] IH]; intros H x y Hx Hy.
-    - contradiction.
-    - destruct Hx as [<-|[]]. destruct Hy as [<-|[]]. reflexivity.
-    - cbn [all_same_cat] in H. apply andb_true_iff in H. destruct H as [Hab H]. apply ceqb_spec in Hab.
-      assert (Hhead : forall z, In z (b :: tl) -> cat z = cat b).
-      { intros z Hz. apply (IH H z b Hz). left. reflexivity. }
-      assert (Hall : forall z, In z (a :: b :: tl) -> cat z = cat b).
-      { intros z [<-|Hz]; [exact Hab|apply Hhead; exact Hz]. }
-      rewrite (Hall x Hx), (Hall y Hy). reflexivity.
-  Qed.
-
-  Lemma exhaustive_pairs_aligned (order : list K -> list K) keys :
-    (forall c, Permutation (order c) c) -> all_same_cat cat ceqb keys = true ->
-    forall pairs, In pairs (exhaustive_pairs cat ceqb order keys) -> Forall (fun kf => fst kf = snd kf) pairs.
-  Proof.
-    intros Hord Hsame pairs Hin. unfold exhaustive_pairs in Hin. apply in_map_iff in Hin.
-    destruct Hin as [combo [<- Hc]]. apply (In_all_combinations K C cat ceqb ceqb_spec) in Hc.
-    destruct Hc as [Hne [Hsub Hnd]].
-    assert (Hmem : forall k, In k combo -> In k keys).
-    { intros k Hk. apply (Permutation_in k (grouped_perm K C cat ceqb ceqb_spec keys)). eapply Subseq_In; eassumption. }
-    destruct combo as [|k1 [|k2 rest]]; [congruence| |].
-    - specialize (Hord [k1]). apply Permutation_sym, Permutation_length_1_inv in Hord. rewrite Hord. cbn. constructor; [reflexivity|constructor].
-    - exfalso. cbn in Hnd. inversion Hnd as [|? ? Hn _]; subst. apply Hn. left.
-      apply (all_same_cat_spec keys Hsame); apply Hmem; cbn; auto.
-  Qed.
-End ExhaustivePairs.
+Lemma exhaustive_pairs_aligned {K C} (cat : K -> C) (ceqb : C -> C -> bool) (keys : list K) :
+  forall pairs, In pairs (exhaustive_pairs cat ceqb keys) ->
+    Forall (fun kf => fst kf = snd kf) pairs /\ In (map fst pairs) (all_combinations cat ceqb keys).
+Proof.
+  intros pairs Hin. unfold exhaustive_pairs in Hin. apply in_map_iff in Hin. destruct Hin as [combo [<- Hc]].
+  split; [apply combine_self_aligned|].
+  destruct (combine_fst_snd combo combo eq_refl) as [E _]. rewrite E. exact Hc.
+Qed.
 
 (* ---------------------------------------------------------------- py_sorted sorts *)
 Section SortSorted.
